@@ -137,7 +137,7 @@ func packWith(shared *slug.Packer, W string, st PackStep) string {
 	fmt.Fprintf(&sb, "files=%q size=%d decode_err=%v\n", meta.Files, meta.Size, derr)
 	for _, e := range dec {
 		h := sha256.Sum256([]byte(e.Body))
-		fmt.Fprintf(&sb, "%s|%c|%o|%d|%s|%d|%s\n", e.Name, e.Type, e.Mode, e.MSec, e.Linkname, e.Size, hex.EncodeToString(h[:6]))
+		fmt.Fprintf(&sb, "%s|%c|%o|%d|%s|%d|%s\n", e.Name, e.Type, e.Mode, e.MSec, strings.ReplaceAll(e.Linkname, W, "<W>"), e.Size, hex.EncodeToString(h[:6]))
 	}
 	return sb.String()
 }
@@ -166,7 +166,7 @@ func init() { core.Register("packseq", packSeqHandler) }
 func c16Trees() map[string][]TNode {
 	return map[string][]TNode{
 		"plain":  {{Path: "src/a", Kind: "file", Body: "A"}, {Path: "src/d/b", Kind: "file", Body: "B"}, {Path: "src/e", Kind: "dir"}},
-		"links":  {{Path: "src/a", Kind: "file", Body: "A"}, {Path: "src/l", Kind: "link", Target: "a"}, {Path: "src/d/up", Kind: "link", Target: "../a"}, {Path: "src/d/b", Kind: "file", Body: "B"}},
+		"links":  {{Path: "src/a", Kind: "file", Body: "A"}, {Path: "src/l", Kind: "link", Target: "a"}, {Path: "src/d/up", Kind: "link", Target: "../a"}, {Path: "src/d/b", Kind: "file", Body: "B"}, {Path: "src/labs", Kind: "link", Target: "<W>/src/a"}}, // incl. an absolute link into the tree
 		"rules":  {{Path: "src/a", Kind: "file", Body: "A"}, {Path: "src/skip/x", Kind: "file", Body: "X"}, {Path: "src/keep/x", Kind: "file", Body: "X"}, {Path: "src/.terraformignore", Kind: "file", Body: "skip/\n"}},
 		"neg":    {{Path: "src/a", Kind: "file", Body: "A"}, {Path: "src/b", Kind: "file", Body: "B"}, {Path: "src/.terraformignore", Kind: "file", Body: "!a\nb\n"}},
 		"git":    {{Path: "src/a", Kind: "file", Body: "A"}, {Path: "src/.git/HEAD", Kind: "file", Body: "ref"}, {Path: "src/.terraform/modules/m/x", Kind: "file", Body: "m"}, {Path: "src/.terraform/y", Kind: "file", Body: "y"}},
@@ -177,7 +177,7 @@ func c16Trees() map[string][]TNode {
 
 // nodes that exist around src for the spelling variants
 func c16Around() []TNode {
-	return []TNode{{Path: "x/deep", Kind: "dir"}, {Path: "hop", Kind: "link", Target: "x/deep"}, {Path: "lnhop", Kind: "link", Target: "hop/../../src"},
+	return []TNode{{Path: "anc", Kind: "link", Target: "."}, {Path: "x/deep", Kind: "dir"}, {Path: "hop", Kind: "link", Target: "x/deep"}, {Path: "lnhop", Kind: "link", Target: "hop/../../src"},
 		{Path: "lnabs", Kind: "link", Target: "<W>/src"}, {Path: "lnrel", Kind: "link", Target: "src"}, {Path: "ln2", Kind: "link", Target: "lnabs"}, {Path: "x/lnup", Kind: "link", Target: "../src"}, {Path: "ln3", Kind: "link", Target: "x/lnup"}}
 }
 
@@ -200,6 +200,8 @@ func RunC16(tier string) int {
 			{"<W>/lnabs", ""}, {"<W>/lnrel", ""}, {"<W>/ln2", ""}, {"<W>/ln3", ""}, {"<W>/x/lnup", ""},
 			{"lnrel", "."}, {"lnabs", "."}, {"../lnrel", "x"}, {"<W>/lnrel", "x"}, {"<W>/lnrel", "src"}, {"<W>/lnabs/", ""}, {"ln2", "."}, {"lnup", "x"},
 			{"<W>/src", "src"}, {"<W>/src", "x"}, {"<W>/src", "."}, {"<W>/lnhop", ""}, {"lnhop", "."}, {"../lnhop", "x"},
+			// a link in front of the last component (anc -> .), and '..' after a link (hop -> x/deep)
+			{"<W>/anc/src", ""}, {"anc/src", "."}, {"<W>/anc/anc/src/", ""}, {"<W>/hop/../../src", ""}, {"hop/../../src", "."}, {"<W>/anc/lnrel", ""},
 		}
 		pool := core.NewPool(0)
 		type job struct {
